@@ -352,7 +352,9 @@ PROPS = {
         level_note="the clause 'a Uint type with LIMBS != ceil(BITS/64) has no obtainable value' is a compile-time outcome (const-eval panic of Self::LIMBS) and cannot be expressed as a contract on a call: NOT decided "
                    "(the one hole found by reading, Uint::<64,2>::MAX, was repaired: fix 4621248); producers not swept: multi-limb division/modular/gcd/root/log results, rand generators; Ord/PartialOrd impls forward to the proved cmp (assumed forwarding)",
         technique="deductive contracts (Verus: wf as postcondition, cmp) + Kani canonical-closure sweep per width",
-        units=["core", "add", "kernels", "cmpord", "mul", "basics", "pow", "divw", "bits", "shifts", "conv_slice", "frombase", "byteslice"],
+        units=["core", "add", "kernels", "cmpord", "mul", "basics", "pow", "divw", "bits", "shifts", "conv_slice", "frombase", "byteslice",
+               # every other unit whose contracts state r.wf() for a value-producing public function
+               "invring", "modular", "gcdw", "gcdext", "rotate", "popcount", "conv", "conv_prim", "sumprod", "absdiff"],
         kani=dict(features=None,
                   quick=hs("c04", r"_w(1|7|60|65)(_must_panic)?$", r"closure_(mul|pow|div|rem|checked_div|div_ceil|reduce_mod|add_mod)") + hs("c09", r"c09_from_(le|be)_w(8|65)_b(10|16|10p19)$"),
                   thorough=hs("c04") + hs("c09", r"c09_from_(le|be)_w(1|8|60|65)_"), timeout_thorough=5000,
